@@ -54,29 +54,38 @@ Section Sort.
   Lemma isort_sorted l : StronglySorted R (isort l).
   Proof. induction l; simpl; [constructor|apply insert_sorted; assumption]. Qed.
 
-  Hypothesis leb_antisym : forall a b, leb a b = true -> leb b a = true -> a = b.
+  (** antisymmetry is only required on the elements satisfying [P] (e.g. tuples in normal form) *)
+  Variable P : A -> Prop.
+  Hypothesis leb_antisym : forall a b, P a -> P b -> leb a b = true -> leb b a = true -> a = b.
 
-  Lemma sorted_perm_eq l : forall l', StronglySorted R l -> StronglySorted R l' -> Permutation l l' -> l = l'.
+  Lemma sorted_perm_eq l : forall l', Forall P l -> StronglySorted R l -> StronglySorted R l' -> Permutation l l' -> l = l'.
   Proof.
-    induction l as [|x r IH]; intros l' S S' P.
-    - apply Permutation_nil in P. symmetry; exact P.
-    - destruct l' as [|y r']; [apply Permutation_sym, Permutation_nil in P; discriminate|].
+    induction l as [|x r IH]; intros l' FP S S' Pm.
+    - apply Permutation_nil in Pm. symmetry; exact Pm.
+    - destruct l' as [|y r']; [apply Permutation_sym, Permutation_nil in Pm; discriminate|].
       inversion S as [|? ? Sr Hx]; subst. inversion S' as [|? ? Sr' Hy]; subst.
+      inversion FP as [|? ? Px FPr]; subst.
       rewrite Forall_forall in Hx, Hy.
       assert (x = y) as ->.
-      { assert (Ix : In x (y :: r')) by (apply (Permutation_in _ P); left; reflexivity).
-        assert (Iy : In y (x :: r)) by (apply (Permutation_in _ (Permutation_sym P)); left; reflexivity).
+      { assert (Ix : In x (y :: r')) by (apply (Permutation_in _ Pm); left; reflexivity).
+        assert (Iy : In y (x :: r)) by (apply (Permutation_in _ (Permutation_sym Pm)); left; reflexivity).
         destruct Ix as [->|Ix]; [reflexivity|]. destruct Iy as [->|Iy]; [reflexivity|].
-        apply leb_antisym; [apply Hx, Iy|apply Hy, Ix]. }
-      f_equal. apply IH; try assumption. eapply Permutation_cons_inv; exact P.
+        apply leb_antisym; [exact Px| |apply Hx, Iy|apply Hy, Ix].
+        rewrite Forall_forall in FPr. apply FPr, Iy. }
+      f_equal. apply IH; try assumption. eapply Permutation_cons_inv; exact Pm.
   Qed.
 
-  Theorem isort_perm_invariant l l' : Permutation l l' -> isort l = isort l'.
+  Theorem isort_perm_invariant l l' : Forall P l -> Permutation l l' -> isort l = isort l'.
   Proof.
-    intros P. apply sorted_perm_eq; try apply isort_sorted.
-    rewrite (isort_perm l), (isort_perm l'). exact P.
+    intros FP Pm. apply sorted_perm_eq; try apply isort_sorted.
+    - rewrite Forall_forall in *. intros x Hx. apply FP. apply (Permutation_in _ (isort_perm l)). exact Hx.
+    - rewrite (isort_perm l), (isort_perm l'). exact Pm.
   Qed.
 
-  Lemma isort_idempotent l : isort (isort l) = isort l.
-  Proof. apply sorted_perm_eq; try apply isort_sorted. apply isort_perm. Qed.
+  Lemma isort_idempotent l : Forall P l -> isort (isort l) = isort l.
+  Proof.
+    intros FP. apply sorted_perm_eq; try apply isort_sorted; [|apply isort_perm].
+    rewrite Forall_forall in *. intros x Hx. apply FP.
+    apply (Permutation_in _ (isort_perm l)). apply (Permutation_in _ (isort_perm (isort l))). exact Hx.
+  Qed.
 End Sort.
